@@ -231,7 +231,7 @@ def c08(tier, hook=None):
         for (n, kind) in ((2, "tuple"), (3, "named"), (1, "named")):
             guises.append((n, kind, "attr" if bounds != "this_dd" else "derive", False, bounds))
     # `Self` in the struct's own generics: inline bound / where-clause (the derived reference forms must expand it)
-    for sb in ("inline", "where"):
+    for sb in ("inline", "where", "nested_inline", "nested_where"):
         for (n, kind) in ((1, "tuple"), (2, "named")):
             for entry in ("attr", "derive"):
                 guises.append((n, kind, entry, True, None, sb))
@@ -343,7 +343,9 @@ def c09(tier, hook=None):
     for op in ops:
         for c in cfgs:
             for rhs_self in (True, False):
-                for generic in ((None, "where", "inline") if ((op in ops[:2] or tier == "thorough") and not (hook or {}).get("renamed")) else (None,)):
+                for generic in ((None, "where", "inline", "nested") if ((op in ops[:2] or tier == "thorough") and not (hook or {}).get("renamed")) else (None,)):
+                    if generic == "nested" and not (c["bl"] == "v" or c["base_is_assign"]):
+                        continue          # (a reference self type with `Self` in the bounds is the open finding D15)
                     idx = len(mods)
                     src, req, d = rf.implop_module(idx, op, (c["bl"], c["br"]), rhs_self, c["want_bin"], c["want_assign"], c["base_is_assign"], generic=generic)
                     mods.append((idx, src))
